@@ -280,7 +280,7 @@ def run_config(cfg):
         so = sys.stdout
         sys.stdout = devnull
         try:
-            jf_run.main([cfg["ini"]])
+            jf_run.main()
         except SystemExit:
             pass
         finally:
